@@ -3548,7 +3548,8 @@ class AccessPaths(Family):
                 yield c
 
 
-FAMILIES = [AccessPaths, SchemaAliasing, RowTransfer, StructDecodeBytes, StructRoundTrip, StructInvalidValue, StructExhaust, StructInvalidSchema, TablePaths, NumpyView, JsonCodec]
+# (AccessPaths last: ./check copies the first nine samples into evidence/C12.json and its observations are ~140 KB each)
+FAMILIES = [SchemaAliasing, RowTransfer, StructDecodeBytes, StructRoundTrip, StructInvalidValue, StructExhaust, StructInvalidSchema, TablePaths, NumpyView, JsonCodec, AccessPaths]
 
 NOT_COVERED = [
     "stringEncoding other than utf-8/ascii/latin-1 in the Coq model (utf-16/utf-32 variants are generated and checked by the oracle only: strings are byte lists after str.encode in the model)",
